@@ -615,6 +615,21 @@ func genUpDown(tier string) []ucase {
 			}
 		}
 	}
+	// 2b. a child table whose foreign keys point at tables that do not exist (yet): the plan adds one
+	// of the parents.  With foreign_keys on, SQLite refuses to drop that parent again ("no such
+	// table") while the child's other parent is missing and the action is CASCADE / SET NULL / SET DEFAULT.
+	for _, act := range []string{"CASCADE", "SET NULL", "SET DEFAULT", "", "RESTRICT"} {
+		child := stab{name: "child", cols: []scol{{name: "id", typ: "integer", notnull: true}, {name: "a", typ: "integer"}, {name: "b", typ: "integer"}}, pk: []string{"id"},
+			fks: []sfk{{sym: "child_p", cols: []string{"a"}, ref: "p", rcols: []string{"id"}, onDel: act}, {sym: "child_g", cols: []string{"b"}, ref: "g", rcols: []string{"id"}}}}
+		if act == "SET NULL" || act == "SET DEFAULT" {
+			// the blocking key has to share a column with the rewritten one
+			child.fks[1].cols = []string{"a"}
+		}
+		par := stab{name: "p", cols: []scol{{name: "id", typ: "integer", notnull: true}, {name: "v", typ: "text"}}, pk: []string{"id"}}
+		for _, fk := range []bool{true, false} {
+			add(sschema{child}, sschema{child, par}, "special:dangling-parent:"+act, fk, "", false)
+		}
+	}
 	// 3. random multi-edit pairs (2..4 edits, catalogue recomputed after every edit)
 	cnt := 700
 	if thorough {
@@ -733,6 +748,9 @@ func runUpDownStage(w *out.W, tier string) {
 				tags = append(tags, "autoindex-drop")
 				break
 			}
+		}
+		if strings.HasPrefix(c.label, "special:dangling-parent:") && c.fk {
+			tags = append(tags, "dangling-parent")
 		}
 		head += " changes=" + strings.Join(r.changes, " ") + " tags=[" + strings.Join(tags, ",") + "]"
 		w.ImplOnly(c.id, head)
